@@ -47,9 +47,10 @@ ASSUMPTIONS = [
     "the delegate graph stays acyclic (reading through a cycle raises RecursionError since fix ec4908f of finding "
     "F21 — before, it killed the interpreter — and is probed in a subprocess); operations that would close a "
     "cycle are skipped on both sides",
-    "copies are made through __reduce_ex__ / __setstate__ only (pickle, copy.copy); clone_traits / deepcopy go through "
-    "clone_traits, which materialises the value read through every linked PrototypedFrom attribute as a LOCAL value "
-    "of the copy (the copy no longer follows the prototype) — not modelled, reported",
+    "copies: pickle round trip of the pool, copy.copy of one object nobody defers to (__setstate__ route), and "
+    "copy.deepcopy of the pool (`cp A d`; __deepcopy__ = clone_traits, the route of clone_traits() too), whose "
+    "copy_traits ASSIGNS every deferring attribute of the clone — modelled as the code does it (Pool.cloneAll), "
+    "reported as known findings clone-localises-linked-prototype / clone-drops-local-value / clone-changes-values",
     "attribute names are identifiers (no ':' '*' '.', not ending in '_'); one delegate reference attribute `d` per class",
     "objects are kept alive for the whole history (weak references of the listener machinery never die)",
 ]
@@ -60,6 +61,14 @@ def corpus():
     S = D.SHAPES
     mk = lambda shape, vals, ops: "dg|%s|%s|%s|%s" % (S[shape][0], S[shape][1], vals, ops)
     return [
+        # copies: pickle round trip keeps link states (Lean: C11_copy); deep copy localises linked prototypes
+        # (known finding clone-localises-linked-prototype, Lean: C11_clone_localises), drops a local value whose
+        # delegate is None (clone-drops-local-value); pickle of that state raises (F114)
+        mk("same-P", "id,id", "sw 1 2;sw 0 1;st 0 x 9;cp A p;st 2 x 5;dl 0 x;st 2 x 6"),
+        mk("same-P", "id,id", "sw 1 2;sw 0 1;cp A d;st 2 x 5;rd 0 x;dl 0 x;st 2 x 6"),
+        mk("expl-P", "id,id", "sw 0 2;st 0 x 9;sw 0 N;cp A d;rd 0 x"),
+        mk("expl-P", "id,id", "sw 0 2;st 0 x 9;sw 0 N;cp A p;cp 0 c;rd 0 x"),
+        mk("D-P-T", "id,id", "sw 1 2;sw 0 1;st 1 x 7;cp A d;rd 2 x"),
         # F5 (fixed): wildcard styles notify
         mk("pre-D", "id,id", "sw 0 2;st 2 p_x 5;st 2 x 6;st 0 x 7"),
         mk("star-D", "id,id", "sw 0 2;st 2 q_x 5;st 2 x 6;st 0 x 7;st 0 y 1;st 2 q_y 2;dl 0 y;st 2 q_y 3"),
@@ -134,6 +143,17 @@ def nontrivial(case, out):
         return True
     states = [p.split(" S[", 1)[1] for p in parts]
     return any(a != b for a, b in zip(states, states[1:]))
+
+
+def _refused(w, orc, o, a, value):
+    """Would the trait at the end of the chain below (o, a) — a real Int / Range trait — reject `value`?"""
+    levels, end = orc.chain(o, a)
+    if end[0] != "T" or not isinstance(value, int):
+        return False
+    spec = w.env.specs[end[2].vid] if end[2].vid < len(w.env.specs) else ["id"]
+    if spec[0] != "range":
+        return False
+    return not (int(spec[1]) <= value <= int(spec[2]))
 
 
 def _hit(sig, what, **kw):
@@ -418,18 +438,46 @@ def run_impl(case):
                     res = "err " + D.exc_name(e)
                     # a saved local value of a deferring attribute is re-assigned through setattr_delegate: with
                     # an incomplete chain below it (delegate None) the state cannot be restored
-                    stuck = [(o_, a_.name) for o_ in ([op[1]] if op[1] is not None else range(len(w.objs)))
-                             for a_ in w.spec(o_).attrs if a_.kind in ("D", "P") and w.local(o_, a_.name)
-                             and orc.chain(o_, a_)[1][0] in ("none", "deep")]
-                    orc.hit("copy-raises:" + ("local-value-without-delegate" if stuck else op[2]), "",
-                            "pickle round trip / copy.copy raised %s" % D.exc_name(e), cells=str(stuck))
+                    cand = [(o_, a_) for o_ in ([op[1]] if op[1] is not None else range(len(w.objs)))
+                            for a_ in w.spec(o_).attrs if a_.kind in ("D", "P") and w.local(o_, a_.name)]
+                    stuck = [(o_, a_.name) for o_, a_ in cand if orc.chain(o_, a_)[1][0] in ("none", "deep")]
+                    # ... and a saved local value the CURRENT prototype's (real Int / Range) trait rejects (it was
+                    # stored under another delegate, or through an undeclared target) cannot be restored either
+                    refused = [(o_, a_.name) for o_, a_ in cand if _refused(w, orc, o_, a_, before[(o_, a_.name)])]
+                    orc.hit("copy-raises:" + ("local-value-without-delegate" if stuck else
+                                              "local-value-rejected-by-prototype" if refused else op[2]), "",
+                            "pickle round trip / copy.copy raised %s" % D.exc_name(e), cells=str(stuck + refused))
                 del w.events[:], w.oevents[:], excs[:]          # only behaviour AFTER the copy is observed
                 after = w.snapshot()
                 tags.add("cp-%s" % op[2])
                 if any((o_, n_) in orc.local for o_ in ([op[1]] if op[1] is not None else range(len(w.objs)))
                        for n_ in [a_.name for a_ in w.spec(o_).attrs]):
                     tags.add("branch:copy-with-broken-link")
-                if after != before:
+                if op[2] == "d" and res == "ok":
+                    # copy.deepcopy / clone_traits ASSIGN every deferring attribute of the clone (copy_traits):
+                    # the stated exception to 'reads as the prototype's value until assigned locally'
+                    localised = [(o_, a_.name) for o_ in range(len(w.objs)) for a_ in w.spec(o_).attrs
+                                 if a_.kind == "P" and w.local(o_, a_.name) and (o_, a_.name) not in orc.local]
+                    for c_ in localised:
+                        orc.local[c_] = after[c_]
+                    if localised:
+                        orc.hit("clone-localises-linked-prototype", "", "after copy.deepcopy a PrototypedFrom attribute "
+                                "that was linked holds a local value (the clone no longer follows its prototype)",
+                                cells=str(localised))
+                    # ... and an assignment that fails (delegate None) is skipped silently: the local value is lost
+                    lost = [c_ for c_ in list(orc.local) if not w.local(*c_)]
+                    for c_ in lost:
+                        del orc.local[c_]
+                    if lost:
+                        orc.hit("clone-drops-local-value", "", "after copy.deepcopy a PrototypedFrom attribute that held "
+                                "a local value (its delegate being None, or its current prototype's trait rejecting "
+                                "the value) holds none", cells=str(lost))
+                    changed = sorted(c for c in after if after[c] != before.get(c) and c not in lost)
+                    if changed:
+                        orc.hit("clone-changes-values:through-prototype", "", "the deep copy reads other values than "
+                                "the original (the clone's DelegatesTo attributes were assigned through the chain)",
+                                cells=str(changed))
+                elif after != before:
                     orc.hit("copy-changes-values:" + op[2], "", "the copy reads other values than the original",
                             cells=str(sorted(c for c in after if after[c] != before.get(c))))
                 outs.append("%s E[] X0 S[%s] F[%s]" % (res, D.show_snapshot(w, after), D.show_forwarders(w)))
